@@ -700,6 +700,7 @@ TEMPLATES += [
     ('twin_functions', '(mod (X) {S} (defun ff (A) (+ A 1)) (defun gg (A) (+ A 1)) (c (ff X) (gg X)))', [('list', 'B')]),
 ]
 
+CL22_INLINE = ('inline_uses_defun',)     # cl22 emits the inline's parameter *name* when it is passed on to a function (known finding)
 DIVERGING_23 = ('const_call_in_helper',)     # cl23+ compilation of these does not terminate (known finding)
 
 # shapes reported by the independent sub-agents as suspicious on the unmodified tree (see DESIGN.md §6/§7)
@@ -759,6 +760,7 @@ class CompileRun(Harness):
     loop_bound = 4000
     max_paths = 20000
     OPTIONS = {'quick': [('cl21', False), ('cl23', False)], 'thorough': [('cl21', False), ('cl21', True), ('cl22', False), ('cl23', False), ('cl24', False)]}
+    classes = {'cl22_inline_passes_parameter_to_function': lambda case, inp: z3.BoolVal(case['t'] in CL22_INLINE and case.get('sigil') == 'cl22')}
 
     QUICK_23 = ('defun_if', 'inline_let', 'rest_tail_let', 'let_shadow', 'lambda_map', 'assign_shadow', 'rest_const_args')
 
@@ -988,7 +990,8 @@ class BuildsAgree(CompileRun):
         got = [native.get('result', {}).get('ok'), native.get('result_b', {}).get('ok')]
         return got == predicted['res']
 
-    classes = {'cl23_constant_call_inside_a_helper': lambda case, inp: z3.BoolVal(case['t'] == 'const_call_in_helper')}
+    classes = {'cl23_constant_call_inside_a_helper': lambda case, inp: z3.BoolVal(case['t'] == 'const_call_in_helper'),
+               'cl22_inline_passes_parameter_to_function': lambda case, inp: z3.BoolVal(case['t'] in CL22_INLINE and 'cl22' in (case['a'][0], case['b'][0]))}
 
     def run_native(self, items):
         return [native_compile_text(it['inputs']) for it in items]
